@@ -241,6 +241,12 @@ func JoinSep(name string) string {
 		return ":"
 	case "dashI":
 		return " -I "
+	case "dotdot":
+		return ".."
+	case "dotand":
+		return ".and."
+	case "semi2":
+		return ";;"
 	default:
 		return " "
 	}
